@@ -293,3 +293,28 @@ Theorem C15_rebuild_noncanonical_status_refuted :
     code p = Some (bs "+200") /\ code p' = Some (bs "200").
 Proof. exact rebuild_noncanonical_status_refuted. Qed.
 Print Assumptions C15_rebuild_noncanonical_status_refuted.
+
+(* The rebuild theorems with DECIDABLE hypotheses: [rebuildable_req p] / [rebuildable_resp p] (Http/Grammar.v)
+   are boolean functions of a parser state (request/response type, non-empty token method / version /
+   canonical status code, path guard, header dict with lower-cased keys, names and values without CR
+   and stripped, names unique, framing flags consistent with the headers and the body, canonical
+   Content-Length).  They are evaluated, inside Coq, on the parser state of every well-formed wire
+   message the harness generates (whatever its header spacing), so the theorem's domain is checked
+   against real parser outputs on every run. *)
+Theorem C15_rebuild_stable_request_bool : forall ua p, rebuildable_req p = true ->
+  exists raw p', build ua p [] false None = Ok raw /\
+    parse (new_parser REQUEST_PARSER) raw = Ok p' /\
+    state p' = COMPLETE /\ buffer p' = None /\
+    method p' = method p /\ version p' = version p /\ path p' = Some (path0 p) /\ host p' = None /\
+    headers p' = headers p /\ bodyb p' = bodyb p /\ is_chunked_encoded p' = is_chunked_encoded p.
+Proof. exact rebuild_stable_request_bool. Qed.
+Print Assumptions C15_rebuild_stable_request_bool.
+
+Theorem C15_rebuild_stable_response_bool : forall p, rebuildable_resp p = true ->
+  exists raw p', build_response p = Ok raw /\
+    parse (new_parser RESPONSE_PARSER) raw = Ok p' /\
+    state p' = COMPLETE /\ buffer p' = None /\
+    version p' = version p /\ code p' = code p /\ or_empty (reason p') = or_empty (reason p) /\
+    headers p' = headers p /\ bodyb p' = bodyb p /\ is_chunked_encoded p' = is_chunked_encoded p.
+Proof. exact rebuild_stable_response_bool. Qed.
+Print Assumptions C15_rebuild_stable_response_bool.
